@@ -183,6 +183,38 @@ CHECKS['C11'] = ('DESIGN.md#C11',
     'arrays (documented type). Boxes exactly at the exclusion threshold are '
     'ambiguous.')
 
+CHECKS['C10'] = ('DESIGN.md#C10',
+    'Entry-point registry (36 public calls incl. every lazy property of '
+    'their results) x argument representation x data condition on '
+    'Hypothesis-generated scenes; oracle = deep before/after snapshot of '
+    'every caller-owned object',
+    'Generated-input search over scenes for the finite matrix entries x '
+    '{ndarray, view of a larger array, Fortran, negative strides, '
+    'MaskedArray with a non-trivial mask, Quantity, float32, int32} x '
+    '{clean, negatives, NaN/inf, NaN under mask, all} x {mask given, '
+    'mask=None}: data, error, mask, background, kernel, footprint, tables, '
+    'PSF model, apertures, segmentation image and the array behind a view '
+    'must be bit-identical (values, dtype, strides, mask, fill_value, unit) '
+    'after the call, also when it raises. Held on N cases; not a proof.',
+    'The registry covers the entry points named in C02-C20; plotting '
+    'helpers, I/O readers and the ePSF builder are not registered. '
+    'Documented in-place mutators of their own object are exempt.')
+CHECKS['C15'] = ('DESIGN.md#C15',
+    'Entry-point registry evaluated on a float64 baseline and on 13 '
+    'representations of the same numbers (differential oracle) over '
+    'Hypothesis-generated integer-valued scenes; mixed unit-ful/unit-less '
+    'inputs must be rejected',
+    'Generated-input search: no representation (int16/32/64, uint8, float32, '
+    'big-endian, Fortran, negative-stride and sliced views, MaskedArray with '
+    'empty mask, Quantity) may raise where float64 succeeds; all numeric '
+    'outputs incl. every lazy property must equal the baseline (rel 1e-9; '
+    'float32 1e-4, iterative fits 2e-2); Quantity inputs put the unit on the '
+    'flux-like outputs; mixing unit-ful with unit-less or incompatible '
+    'inputs raises ValueError/UnitsError. Held on N cases; not a proof.',
+    'Background2D integer-output truncation is excepted (abs 2 counts). A '
+    'different number of detections under float32 is counted as a decision '
+    'flip, not a violation. Entries declare admitted representations.')
+
 NOT_APPLICABLE = []
 
 
